@@ -424,7 +424,7 @@ def hist_shards(tier):
     <= 9 cells, in small shards (the work per table grows with the 4th power of the
     number of concepts)."""
     from . import hist2
-    return [('H',) + s[1:] for s in space.s_shards(hist2.MAX_CELLS, chunk=8)
+    return [('H',) + s[1:] for s in space.s_shards(hist2.max_cells(tier), chunk=8)
             if s[1] >= 2 and s[2] >= 2]
 
 
